@@ -126,6 +126,13 @@ func (m *svMod) initGenesis(e *lib.Env) lib.Outcome {
 	gs := servicetypes.GenesisState{Params: svGo(m.p)}
 	return e.Try(func(ctx sdk.Context) error { service.InitGenesis(ctx, *m.k[e], gs); return nil })
 }
+func (m *svMod) genesisStages(e *lib.Env) (int, int) {
+	gs := servicetypes.GenesisState{Params: svGo(m.p)}
+	vg, _ := errCode(func() error { return servicetypes.ValidateGenesis(gs) })
+	cctx, _ := e.Ctx.CacheContext()
+	sp, _ := errCode(func() error { return m.k[e].SetParams(cctx, gs.Params) })
+	return vg, sp
+}
 func (m *svMod) stored(e *lib.Env) string { return svTerm(m.k[e].GetParams(e.Ctx)) }
 
 // deposits of the bindings whose requests expire in the end-blocker of the current block, in processing order
